@@ -1,7 +1,8 @@
 """C06 — point / expression algebra is a faithful vector-space and inner-product calculus.
 
 Tie: random DSL trees are built with the real operators and with Model/Terms.compile; the resulting
-dictionaries (keys in order, values exactly) and constraint senses must agree.
+dictionaries (keys in order, values exactly) and constraint senses must agree.  The no-mutation clause is a generated
+obligation over the sources (translator/tr_purity.py -> Gen/Purity.v, C06_operators_do_not_write_operands).
 Search: the implementation's result is evaluated under random rational valuations of the leaves and
 compared with the mathematical meaning of the tree; operands are snapshotted for the no-mutation
 clause; the operand-kind table is exercised exhaustively."""
@@ -10,6 +11,32 @@ from fractions import Fraction
 
 from . import terms as T
 from .common import run_cases, model_output, coq_nat, Q
+
+GEN_DEPS = ["Purity.v"]
+TRUSTED = [
+    "translator/tr_purity.py -> Gen/Purity.v (theorem C06_operators_do_not_write_operands): a conservative, fail-closed, "
+    "flow-insensitive SYNTACTIC alias analysis of the operator dunders of Point / Expression (incl. any in-place dunder), of "
+    "Point / Expression / Constraint __init__, of merge_dict / prune_dict / multiply_dicts / symmetrize_dict and of every "
+    "other method of the three classes they call on an operand. Every parameter, and everything read out of a parameter, "
+    "of a fresh container or of a call result (attribute, item, loop / comprehension variable, .get/.items/..), counts as "
+    "operand-owned; only displays, comprehensions, dict()/list()/.., x.copy(), copy.copy(x), results of the analysed helpers "
+    "(each proved to return a fresh dict) and of the three constructors count as fresh. It is an analysis of the source "
+    "text, not a proof about the Python heap. Its limits: (1) operator syntax on operands (-x, a - b, a <= b, a * c) is "
+    "taken to dispatch to the analysed operator methods or to immutable numbers - an operand of a foreign class with a "
+    "mutating __neg__ / __rsub__ is outside it; (2) built-ins listed as pure (isinstance, type, len, str.format, print, "
+    "dict(), sorted(), min/max/sum, exception constructors, ..) are trusted not to call mutating hooks (__len__, __hash__, "
+    "__format__, __iter__) of the operands; (3) aliasing through process-global state is not followed: a call that "
+    "receives no operand-derived argument is assumed not to reach the operands (e.g. through Point.list_of_leaf_points), and "
+    "writes through global chains other than `Cls.attr = ..` / `Cls.registry.append(..)` are rejected rather than followed; "
+    "(4) monkey-patching of the three classes or of the helpers from OTHER modules is not seen (inside the four analysed "
+    "files, decorated methods / properties, __getattr__/__setattr__/__new__-style hooks, metaclass keywords, base classes "
+    "other than object, rebinding of an operator in the class body or at module level ARE rejected); "
+    "(5) containers of containers are handled only by over-approximation (whatever is read out of a fresh container is "
+    "operand-owned again), so code that really needs a fresh nested container is rejected, not accepted; (6) the analysis "
+    "covers the listed files only: code elsewhere in PEPit that mutates a Point / Expression directly (eval() caching "
+    "_value, set_name) is not an operator and is outside this obligation. The operand-snapshot test of the "
+    "correspondence stream stays as the dynamic cross-check.",
+]
 
 NP, NX = 4, 3
 IMPORTS = []
